@@ -117,3 +117,92 @@ func retained(fns []*ssa.Function, selfIdx int) (out []retention, nStores int) {
 func (r retention) String() string {
 	return fmt.Sprintf("%s: a reference rooted at %s is %s", fnName(r.Fn), r.Root, r.What)
 }
+
+// lostLoopErrors finds error values produced by a call inside a loop that reach the next iteration (through the loop
+// header's phi, or through a local slot) without being compared with nil anywhere inside the loop: the error of every
+// iteration but the last is overwritten unseen.
+type lostErr struct {
+	Fn   *ssa.Function
+	Pos  token.Pos
+	What string
+}
+
+func lostLoopErrors(fn *ssa.Function) (out []lostErr, nLoopErrs int) {
+	errT := types.Universe.Lookup("error").Type()
+	isErr := func(t types.Type) bool { return types.Identical(t, errT) }
+	nilCmpIn := func(v ssa.Value, blocks map[*ssa.BasicBlock]bool) bool {
+		refs := v.Referrers()
+		if refs == nil {
+			return false
+		}
+		for _, r := range *refs {
+			if bo, ok := r.(*ssa.BinOp); ok && (bo.Op == token.EQL || bo.Op == token.NEQ) && blocks[bo.Block()] {
+				return true
+			}
+			if ret, ok := r.(*ssa.Return); ok && blocks[ret.Block()] {
+				return true // returned from inside the loop
+			}
+		}
+		return false
+	}
+	fromCall := func(v ssa.Value) bool {
+		switch x := v.(type) {
+		case *ssa.Call:
+			return true
+		case *ssa.Extract:
+			_, ok := x.Tuple.(*ssa.Call)
+			return ok
+		}
+		return false
+	}
+	for _, lp := range naturalLoops(fn) {
+		for b := range lp.Blocks {
+			for _, in := range b.Instrs {
+				if v, ok := in.(ssa.Value); ok && isErr(v.Type()) && fromCall(v) {
+					nLoopErrs++
+				}
+			}
+		}
+		for _, in := range lp.Header.Instrs {
+			phi, ok := in.(*ssa.Phi)
+			if !ok {
+				break
+			}
+			if !isErr(phi.Type()) {
+				continue
+			}
+			for i, e := range phi.Edges {
+				if !lp.Blocks[lp.Header.Preds[i]] || e == phi {
+					continue
+				}
+				// values merged inside the loop body
+				var cands []ssa.Value
+				var walk func(v ssa.Value, d int)
+				walk = func(v ssa.Value, d int) {
+					if d > 4 {
+						return
+					}
+					if p2, ok := v.(*ssa.Phi); ok && p2 != phi && lp.Blocks[p2.Block()] {
+						for _, e2 := range p2.Edges {
+							walk(e2, d+1)
+						}
+						return
+					}
+					cands = append(cands, v)
+				}
+				walk(e, 0)
+				for _, v := range cands {
+					vi, ok := v.(ssa.Instruction)
+					if !ok || !lp.Blocks[vi.Block()] || !fromCall(v) {
+						continue
+					}
+					if nilCmpIn(v, lp.Blocks) || nilCmpIn(phi, lp.Blocks) {
+						continue
+					}
+					out = append(out, lostErr{fn, v.Pos(), "the error assigned to " + phi.Comment + " inside the loop is not tested before the next iteration overwrites it"})
+				}
+			}
+		}
+	}
+	return
+}
